@@ -123,6 +123,14 @@ func cmdRun(args []string) int {
 		return 2
 	}
 	printSummary(e, time.Since(t0))
+	if e.Mon != nil {
+		for r, v := range e.Mon.Summary() {
+			fmt.Println("monitor role", r, v)
+		}
+		for _, c := range e.Mon.RaceCandidates() {
+			fmt.Printf("RACE-CANDIDATE %s: %s [%s write=%v atomic=%v locks=%q] vs %s [%s write=%v atomic=%v locks=%q]\n", c.Loc, c.RoleA, c.A.Site, c.A.Write, c.A.Atomic, c.A.Locks, c.RoleB, c.B.Site, c.B.Write, c.B.Atomic, c.B.Locks)
+		}
+	}
 	if len(e.Problems) > 0 {
 		return 2
 	}
